@@ -48,7 +48,7 @@ prop("C17", "TestC17", "exploration",
      "text-vs-encoded agreement laws. The finite part is complete, so for it the verdict is a decision, not a sample.",
      "Oracle = NCBI transl_table=1 string and IUPAC set table typed in independently of gofasta's tables.",
      "bounded-exhaustive enumeration + property-based testing (rapid) against an independent reference model",
-     "all 4913 codons over the 17 alignment symbols also as the query codon of a gene run through `variants` (3 reference codons x 2 strands x GenBank/GFF x with/without a preceding changed codon, rows against the C04 oracle); codon sequences: every codon preceded/followed by 8 followers (enumerated) and rapid sequences of 2..8 codons mixing resolvable-ambiguous, plain and untranslatable ones; codons: all 15^3 enumerated, non-trivial = contains an ambiguity code; characters: all 32 accepted enumerated; strings: rapid, "
+     "all 4913 codons over the 17 alignment symbols also as the query codon of a gene run through `variants` (6 reference codons (3 of them ambiguous but translatable) x 2 strands x GenBank/GFF x with/without a preceding changed codon, rows against the C04 oracle); codon sequences: every codon preceded/followed by 8 followers (enumerated) and rapid sequences of 2..8 codons mixing resolvable-ambiguous, plain and untranslatable ones; codons: all 15^3 enumerated, non-trivial = contains an ambiguity code; characters: all 32 accepted enumerated; strings: rapid, "
      "length 0..40 over the 32 accepted characters, non-trivial = length >= 2; distinct = hash of the case",
      q, t, required_labels=["codon:ambiguous-resolvable", "char", "string:len>=2"],
      exhaustive_note="all 15^3 codons x {lenient, strict, dictionary}; all 15^3 codons as query codon through variants x 3 reference codons x 2 strands x 2 annotation formats; all 32 accepted + 95 rejected ASCII characters")
@@ -62,7 +62,7 @@ prop("C03", "TestC03", "exploration",
      "Oracle = IUPAC base-set table written from the statement; output compared byte for byte (header, row order, item order, upper case).",
      "bounded-exhaustive enumeration + property-based testing (rapid) against an independent reference model",
      "rapid: reference and 1..8 records over ACGTRYSWKMBDHVN-? (70% A/C/G/T), two thirds of records derived from the reference with 0..4 "
-     "size classes: 4% of cases have 60..140 records, 2% are 4095..9000 columns wide; about 100 cases per quick run are bulk alignments of 1.1..2.2 MiB (2000 / 5000 / 29 903 / 70 000 columns); 1 in 30 also runs the binary; edits; non-trivial = some reported SNP involves a non-A/C/G/T symbol, or --hard-gaps with a '-' column; distinct = hash of the case",
+     "size classes: 4% of cases have 60..140 records, 2% are 4095..9000 columns wide; about 100 cases per quick run are bulk alignments of 1.1..2.2 MiB (2000 / 5000 / 29 903 / 70 000 / 1 048 600 columns); 1 in 30 also runs the binary; edits; non-trivial = some reported SNP involves a non-A/C/G/T symbol, or --hard-gaps with a '-' column; distinct = hash of the case",
      q, t, need_bin=True, required_labels=["snp-with-ambiguity-code", "hardgap-column", "wrapped", "crlf"],
      exhaustive_note="17x17 symbol pairs x {soft,hard gaps} x 4 case combinations x 3 columns")
 
